@@ -12,7 +12,8 @@ EXPLANATION = (
     "future — is dominated by the successful binding of an owned permit acquired from the shared semaphore; "
     "(HELD) on normal control flow the permit is first moved or dropped only after the inner future's await "
     "reported Ready, so it is held across the whole inner call; with C07's pairing, each in-flight inner call owns "
-    "a distinct permit of one semaphore of capacity n.")
+    "a distinct permit of one semaphore of capacity n."
+    ' Also: (SHARE) the semaphore field shared by all clones is never assigned after construction; no panicking Instant/Duration operator is applied to a configured duration (NO-PANIC-ARITH).')
 RULE = "one obligation per Semaphore::new, per forbidden-call scan, per wrapped-call site, per consumption site of the permit"
 TRUSTED = ["tokio::sync::Semaphore (permits are handed out at most `capacity` at a time)", "rustc MIR construction"]
 ASSUMPTIONS = ["max_concurrent_calls >= 1"]
